@@ -381,3 +381,222 @@ func ZZC13Len() {
 	}
 	zzWitness("end")
 }
+
+// ---- string built-ins against naive reference implementations written from docs/builtins.md ----
+
+var zzStrAlphabet = []string{"", "a", "b", "ab", "ba", "aba", "ñ", "añb", "ñañ", ",", "a,b", ",a,", "a,,b", " a ", "AbC"}
+
+func zzRefSplit(s, sep string) []string {
+	rs, rsep := []rune(s), []rune(sep)
+	if len(rsep) == 0 {
+		var out []string
+		for _, r := range rs {
+			out = append(out, string(r))
+		}
+		return out
+	}
+	var out []string
+	cur := ""
+	for i := 0; i < len(rs); {
+		if zzRunesAt(rs, i, rsep) {
+			out = append(out, cur)
+			cur = ""
+			i += len(rsep)
+			continue
+		}
+		cur += string(rs[i])
+		i++
+	}
+	return append(out, cur)
+}
+
+func zzRunesAt(rs []rune, i int, sub []rune) bool {
+	if i+len(sub) > len(rs) {
+		return false
+	}
+	for k := range sub {
+		if rs[i+k] != sub[k] {
+			return false
+		}
+	}
+	return true
+}
+
+func zzRefIndex(s, sub string) int {
+	rs, rsub := []rune(s), []rune(sub)
+	for i := 0; i+len(rsub) <= len(rs); i++ {
+		if zzRunesAt(rs, i, rsub) {
+			return i
+		}
+	}
+	return -1
+}
+
+func zzRefReplace(s, old, new string) string {
+	rs, ro := []rune(s), []rune(old)
+	if len(ro) == 0 {
+		out := new
+		for _, r := range rs {
+			out += string(r) + new
+		}
+		return out
+	}
+	out := ""
+	for i := 0; i < len(rs); {
+		if zzRunesAt(rs, i, ro) {
+			out += new
+			i += len(ro)
+			continue
+		}
+		out += string(rs[i])
+		i++
+	}
+	return out
+}
+
+func zzRefTrim(s, cutset string) string {
+	rs := []rune(s)
+	in := func(r rune) bool {
+		for _, c := range cutset {
+			if c == r {
+				return true
+			}
+		}
+		return false
+	}
+	for len(rs) > 0 && in(rs[0]) {
+		rs = rs[1:]
+	}
+	for len(rs) > 0 && in(rs[len(rs)-1]) {
+		rs = rs[:len(rs)-1]
+	}
+	return string(rs)
+}
+
+func zzRefCase(s string, upper bool) string {
+	out := ""
+	for _, r := range s {
+		switch {
+		case upper && r >= 'a' && r <= 'z':
+			r -= 32
+		case !upper && r >= 'A' && r <= 'Z':
+			r += 32
+		case upper && r == 'ñ':
+			r = 'Ñ'
+		case !upper && r == 'Ñ':
+			r = 'ñ'
+		}
+		out += string(r)
+	}
+	return out
+}
+
+func zzEvyStr(s string) string { return strconv.Quote(s) }
+
+func zzEvyStrArr(xs []string) string {
+	out := "["
+	for i, x := range xs {
+		if i > 0 {
+			out += " "
+		}
+		out += x
+	}
+	return out + "]"
+}
+
+// ZZC13Strings: join, split, index, startswith, endswith, trim, replace,
+// upper, lower, sprint and print over an alphabet of strings that includes
+// the empty string, separators at the edges and doubled, and non-ASCII text.
+func ZZC13Strings() {
+	fn := zzChoice("fn", 11)
+	A := zzStrAlphabet
+	s1 := A[zzChoice("s1", len(A))]
+	var src, want string
+	q := zzEvyStr
+	switch fn {
+	case 0, 9, 10: // join / sprint / print: separators between all elements, also empty ones
+		n := zzChoice("n", 4)
+		els := []string{}
+		for i := 0; i < n; i++ {
+			els = append(els, []string{"", "a", "ñ", "b,"}[zzChoice("el", 4)])
+		}
+		sep := []string{"", ",", "ab", " "}[zzChoice("sep", 4)]
+		if fn != 0 {
+			sep = " "
+		}
+		joined := ""
+		lit := ""
+		for i, e := range els {
+			if i > 0 {
+				joined += sep
+				lit += " "
+			}
+			joined += e
+			lit += q(e)
+		}
+		switch fn {
+		case 0:
+			src = "printf \"%q\\n\" (join [" + lit + "] " + q(sep) + ")\n"
+			want = "print:" + strconv.Quote(joined) + "\n"
+		case 9:
+			src = "printf \"%q\\n\" (sprint " + lit + ")\n"
+			want = "print:" + strconv.Quote(joined) + "\n"
+		case 10:
+			src = "print " + lit + "\n"
+			want = "print:" + joined + "\n"
+		}
+		if s1 != "" {
+			zzAssume(false) // s1 is unused here: explore once
+		}
+	case 1:
+		sep := []string{"", ",", "a", "ab", "ñ", ",,"}[zzChoice("sep", 6)]
+		parts := zzRefSplit(s1, sep)
+		src = "r := split " + q(s1) + " " + q(sep) + "\nprint (len r)\nfor e := range r\n    printf \"%q \" e\nend\n"
+		want = "print:" + strconv.Itoa(len(parts)) + "\n"
+		for _, p := range parts {
+			want += "|print:" + strconv.Quote(p) + " "
+		}
+	case 2:
+		s2 := A[zzChoice("s2", len(A))]
+		src = "print (index " + q(s1) + " " + q(s2) + ")\n"
+		want = "print:" + strconv.Itoa(zzRefIndex(s1, s2)) + "\n"
+	case 3:
+		s2 := A[zzChoice("s2", len(A))]
+		src = "print (startswith " + q(s1) + " " + q(s2) + ")\n"
+		want = "print:" + strconv.FormatBool(zzRefIndex(s1, s2) == 0) + "\n"
+	case 4:
+		s2 := A[zzChoice("s2", len(A))]
+		r1, r2 := []rune(s1), []rune(s2)
+		ends := len(r2) <= len(r1) && zzRunesAt(r1, len(r1)-len(r2), r2)
+		src = "print (endswith " + q(s1) + " " + q(s2) + ")\n"
+		want = "print:" + strconv.FormatBool(ends) + "\n"
+	case 5:
+		cut := []string{"", "a", ",", "ñ", "a,", " ", "ba"}[zzChoice("cut", 7)]
+		src = "printf \"%q\\n\" (trim " + q(s1) + " " + q(cut) + ")\n"
+		want = "print:" + strconv.Quote(zzRefTrim(s1, cut)) + "\n"
+	case 6:
+		old := []string{"", "a", ",", "ñ", "ab", "aa"}[zzChoice("old", 6)]
+		nw := []string{"", "X", "a", "ñ"}[zzChoice("new", 4)]
+		src = "printf \"%q\\n\" (replace " + q(s1) + " " + q(old) + " " + q(nw) + ")\n"
+		want = "print:" + strconv.Quote(zzRefReplace(s1, old, nw)) + "\n"
+	case 7:
+		src = "printf \"%q\\n\" (upper " + q(s1) + ")\n"
+		want = "print:" + strconv.Quote(zzRefCase(s1, true)) + "\n"
+	case 8:
+		src = "printf \"%q\\n\" (lower " + q(s1) + ")\n"
+		want = "print:" + strconv.Quote(zzRefCase(s1, false)) + "\n"
+	}
+	p := &zzPlat{}
+	ev := NewEvaluator(p)
+	err := ev.Run(src)
+	if err != nil {
+		zzLog(src + err.Error())
+	}
+	zzAssert(err == nil, "C13 strings: the call is accepted and runs")
+	if p.out() != want {
+		zzLog("C13 strings: " + src + "want " + want + "\ngot  " + p.out())
+	}
+	zzAssert(p.out() == want, "C13 strings: string built-ins return what docs/builtins.md specifies, positions in code points, separators between all elements")
+	zzReach("strings-ok")
+	zzWitness("end")
+}
